@@ -95,10 +95,16 @@ func check(t interface{ Fatalf(string, ...interface{}) }, name string, p *lp.Pro
 	nt, labels := nontrivial(p)
 	rec.Case(b, nt, labels...)
 	rec.Sample(json.RawMessage(b))
-	if is := lp.Check(p, "layout"); len(is) > 0 {
+	res := lp.Run(p)
+	if is := lp.CheckResult(p, res, "layout"); len(is) > 0 {
 		if is[0].Kind == "invalid" {
-			// an unparseable line is C01's finding; the layout cannot be judged
-			rec.Excluded("unparseable-line (C01's domain)")
+			// an unparseable line is C01's finding and its layout cannot be judged — unless the same
+			// event through its own derivation path alone emits something else: then the line does
+			// not carry "the logger's context fields in the order they were added" but another logger's bytes
+			if bad := lp.Interference(p, res); bad != nil {
+				fail(t, name, p, fmt.Sprintf("event line %q is not what its own derivation path produces alone: context/hook fields garbled by another logger", bad))
+			}
+			rec.Excluded("unparseable-line reproduced in isolation (C01's domain)")
 			return
 		}
 		fail(t, name, p, is[0].String())
